@@ -96,6 +96,11 @@ pub fn run_random(tr: &mut Trace, run: u64, seed: u64, prof: Profile) -> RunStat
     let cfg = PairCfg { pw, fw, pbase, fbase, rx_alloc, bw, keepalive };
     let mut p = Pair::new(cfg);
     p.log_probe = true;
+    if prof == Profile::Frag && r.chance(1, 2) {
+        // half of the fragmentation runs: every data frame may be followed by a disagreeing copy of one of its fragments
+        p.tamper = *r.pick(&[10u64, 30, 60]);
+        p.tamper_rng = seed ^ 0x7A3;
+    }
 
     let nch = *r.pick(&[1u64, 2, 3, 8, 64]);
     let weights = *r.pick(&[[1u64, 1, 1, 1], [0, 0, 0, 1], [1, 3, 1, 1], [0, 1, 1, 2], [2, 1, 0, 1], [0, 0, 1, 1]]);
@@ -245,9 +250,14 @@ pub fn run_random(tr: &mut Trace, run: u64, seed: u64, prof: Profile) -> RunStat
         tr.line(json!({"ev": "FaultsEnd", "t": p.t_ms()}));
     }
 
+    let tampered_run = p.tamper > 0;
+    p.tamper = 0; // the hostile copies belong to the fault phase
     // ---- fair tail: no faults, FIFO, both ends stepped until quiescent or the horizon
     let backlog: usize = p.ep[0].last_bufsize + p.ep[1].last_bufsize;
-    let horizon_ms: u64 = 3_600_000 + (backlog as u64 * 1000) / 23;
+    // a forged frame may use a frame id the genuine sender has not reached yet, which can wedge that direction for
+    // good (an on-path forger is outside the liveness properties): such runs get a short tail and are judged on
+    // payload integrity only
+    let horizon_ms: u64 = if tampered_run { 120_000 } else { 3_600_000 + (backlog as u64 * 1000) / 23 };
     let tail_start = p.t_ms();
     p.log_probe = false;
     let mut quiet_rounds = 0;
